@@ -39,7 +39,7 @@ def backend():
             def format_tag(self, name, text):
                 return [[a, [[0, norm(name)]] + ms] for a, ms in text]
             def format_href(self, url, text, external=False):
-                return [[a, [[1, norm(url), 0]] + ms] for a, ms in text]     # `external` is C08's business (F10)
+                return [[a, [[1, norm(url), 1 if external else 0]] + ms] for a, ms in text]
             def format_protected(self, text):
                 return [[a, [[2]] + ms] for a, ms in text]
             def render_sequence(self, seq):
@@ -52,6 +52,20 @@ def flat_of(v):
     if isinstance(v, str):
         return [[[0, ord(c)], []] for c in v]
     return v.render(backend())
+
+def compact(f):
+    """flat -> maximal runs [[markups], [atoms]] (a character as its code point, a symbol as its name)"""
+    out = []
+    for a, ms in f:
+        x = a[1]
+        if out and out[-1][0] == ms:
+            out[-1][1].append(x)
+        else:
+            out.append([ms, [x]])
+    return out
+def expand(cf):
+    return [[[0, x] if isinstance(x, int) else [1, x], ms] for ms, atoms in cf for x in atoms]
+def cflat_of(v): return compact(flat_of(v))
 
 def fl_str(s): return [[[0, ord(c)], []] for c in s]
 def fl_sym(n): return [[[1, norm(n)], []]]
@@ -405,7 +419,7 @@ def impl_bibliography(arg):
             out = []
             extra = []
             for e in fb.entries:
-                out.append([norm(e.key), norm(e.label), flat_of(e.text)])
+                out.append([norm(e.key), norm(e.label), cflat_of(e.text)])
                 rend = []
                 for b in BACKENDS:
                     try:
@@ -413,10 +427,19 @@ def impl_bibliography(arg):
                     except Exception as ex:
                         rend.append(None)
                 extra.append(rend)
-            return out, extra
+            import io
+            whole = []
+            for b in BACKENDS:
+                try:
+                    st = io.StringIO()
+                    _backend_obj(b).write_to_stream(fb, st)
+                    whole.append(st.getvalue())
+                except Exception as ex:
+                    whole.append(None)
+            return out, extra, whole
     r = classify(run)
     if r[0] == 0:
-        return [0, r[1][0], r[1][1]]
+        return [0, r[1][0], r[1][1], r[1][2]]
     return r
 
 def impl_eval(arg):
@@ -428,7 +451,7 @@ def impl_eval(arg):
         style = mk_style_cached([0, [], [], [lastfirst], abbr, 2, 1])
         ctx = {'entry': e, 'style': style, 'bib_data': bd}
         v = node.format_data(ctx) if hasattr(node, 'format_data') else node
-        return [] if v is None else flat_of(v)
+        return [] if v is None else cflat_of(v)
     return classify(run)
 
 def impl_alpha_labels(arg):
@@ -460,7 +483,7 @@ def impl_sort(arg):
 def impl_name(arg):
     def run():
         ns = _plugin('pybtex.style.names', NAMES[arg[1]])()
-        return flat_of(ns.format(mk_person(arg[0]), bool(arg[2])).format_data(None))
+        return cflat_of(ns.format(mk_person(arg[0]), bool(arg[2])).format_data(None))
     return classify(run)
 
 def impl_abbreviate(arg):
@@ -470,7 +493,7 @@ def impl_abbreviate(arg):
 def impl_from_latex(arg):
     def run():
         from pybtex.richtext import Text
-        return flat_of(Text.from_latex(S(arg[0])))
+        return cflat_of(Text.from_latex(S(arg[0])))
     return classify(run)
 
 def impl_number_labels(arg):
@@ -529,7 +552,7 @@ def stored_entry(e):
         return [e[0], norm(S(e[1]).lower()), e[2], e[3]]
     return norm(dump_entry(mk_entry(e), S(e[0])))
 
-def model_arg(fn, arg):
+def _model_arg(fn, arg):
     if fn in (3, 4):
         return [[stored_entry(e) for e in arg[0]]] + arg[1:]
     if fn == 9:
@@ -891,7 +914,7 @@ def oracle_bib(arg, out):
     if out[0] != 0:
         return 'no bibliography produced for a well-formed database with all required fields: %s' % (
             'pybtex error' + (' %r' % (S(out[2]),) if len(out) >= 3 else '') if out[0] == 1 else 'foreign exception')
-    res = out[1]
+    res = [[r[0], r[1], expand(r[2])] for r in out[1]]
     rend = out[2] if len(out) > 2 else None
     got = [S(r[0]) for r in res]
     want = [S(e[0]) for e in ents]
@@ -901,6 +924,10 @@ def oracle_bib(arg, out):
         return 'formatted entries %r are not the resolved citations %r' % (got, want)
     if got != want:
         return 'formatted entries are in order %r, the %s order is %r' % (got, SORTS[sort_ayt], want)
+    if len(out) > 3:
+        for b, w in zip(BACKENDS, out[3]):
+            if w is None:
+                return 'backend %s failed to write the bibliography of %d entries' % (b, len(res))
     labels = [S(r[1]) for r in res]
     if not lab_alpha:
         if labels != [str(i + 1) for i in range(len(res))]:
@@ -952,9 +979,51 @@ def oracle_bib(arg, out):
                 return 'text backend output of %r does not end with a sentence terminator: %r' % (key, ptxt)
     return None
 
+def spec_abbreviate_token(tok):
+    """first letter and a period for every piece (between whitespace / hyphens) that consists of letters"""
+    return ''.join((p[0] + '.') if p.isalpha() else p for p in re.split(r'([\s\-])', tok))
+
+def oracle_name(arg, out):
+    """name_tokens_emitted on the implementation: every name token of the person, abbreviated (first and middle
+    names, when asked) or in full, appears in the style's order with only spaces, ties and ", " around"""
+    p, lastfirst, abbr = arg
+    toks = []
+    try:
+        parts = [[_dec(S(n)) for n in part] for part in p]
+    except Exception:
+        return None
+    if not all(_balanced(n) for part in parts for n in part):
+        return None
+    if out[0] != 0:
+        return 'formatting a well-formed name raised'
+    f, m, pl, l, j = [[_strip_braces(n) for n in part] for part in parts]
+    if any(('{' in S(n) or '}' in S(n)) for part in p[:2] for n in part) and abbr:
+        return None      # abbreviation of brace-protected letters: left to the correspondence
+    fm = [spec_abbreviate_token(t) if abbr else t for t in f + m]
+    order = (pl + l + j + fm) if lastfirst else (fm + pl + l + j)
+    atoms = [chr(a[1]) if a[0] == 0 else '<%s>' % S(a[1]) for a, ms in expand(out[1])]
+    seps = (' ', ',', '<nbsp>')
+    def go(i, k):
+        if k == len(order):
+            return all(a in seps for a in atoms[i:])
+        t = order[k]
+        j0 = i
+        while True:
+            if atoms[j0:j0 + len(t)] == list(t) and go(j0 + len(t), k + 1):
+                return True
+            if j0 < len(atoms) and atoms[j0] in seps:
+                j0 += 1
+            else:
+                return False
+    if not go(0, 0):
+        return 'name tokens %r do not appear in this order with only separators around in %r' % (order, ''.join(atoms))
+    return None
+
 def oracle(fn, arg, out):
     if fn == 1:
         return oracle_bib(arg, out)
+    if fn == 5:
+        return oracle_name(arg, out)
     if fn == 8:
         if out[0] != 0 or [S(x) for x in out[1]] != [str(i + 1) for i in range(arg[0])]:
             return 'number labels are not 1..n'
@@ -1213,11 +1282,12 @@ def wrap_kinds(cs):
     yield [8, cs]
     yield [10, norm('em'), cs]
     yield [11, [L('http://u')], 0, cs]
+    yield [11, [FLD('u', 0, 1)], 1, cs]
     yield [12, cs]
     yield [13, cs]
     yield [14, FL(', '), 1, 0, cs]; yield [14, FL(''), 0, 0, cs]
 
-def gen(tier, rng):
+def _gen(tier, rng):
     quick = tier == 'quick'
     cfg0 = [0, None, None, None, 0, 2, 1]
     # ---- pinned
@@ -1233,6 +1303,19 @@ def gen(tier, rng):
     yield ('pinned', 1, [[0, None, None, None, 0, 2, 0], [['a', 'misc', [['title', 'T']], []]], [['a', 'nokey']]])
     yield ('pinned', 1, [cfg0, [['a', 'article', [['title', 'T']], [['author', [P(last=['A'])]]]]], None])   # missing journal
     yield ('pinned', 1, [cfg0, [['a', 'misc', [['crossref', 'b']], []], ['b', 'misc', [['crossref', 'a']], []]], None])   # F4 cycle
+    # n = 0: empty citation list, empty database (F31: the LaTeX back end writes an empty bibliography)
+    one = [['a', 'misc', [['title', 'T']], []]]
+    for st in (0, 1):
+        for fs in range(4):
+            c = [fs, None, None, None, 0, 2, st]
+            yield ('pinned', 1, [c, [], None]); yield ('pinned', 1, [c, [], [[]]]); yield ('pinned', 1, [c, one, [[]]])
+            yield ('pinned', 1, [c, [], [['x']]]); yield ('pinned', 1, [c, [], [['*']]])
+    # FC14a (C14): a role inherited through crossref is seen by field() but not by names()
+    fc14 = [['c', 'inbook', [['title', 'T'], ['crossref', 'p'], ['pages', '1--2']], []],
+            ['p', 'book', [['publisher', 'Pub'], ['year', '2000'], ['title', 'PT']], [['editor', [P(last=['Ed'])]]]]]
+    yield ('pinned', 1, [cfg0, fc14, [['c']]])
+    yield ('pinned', 2, [FLD('editor'), fc14[0], [fc14], 0, 0])
+    yield ('pinned', 2, [[7, norm('editor'), FL(', '), [], []], fc14[0], [fc14], 0, 0])
     # an entry that is not in the database, whose parents form a cycle (the fuel of find_field)
     ent3 = ['Other', 'misc', [['crossref', 'par']], []]
     for t in (FLD('zz'), FLD('nope'), OFLD('nope'), [12, [OFLD('nope'), L('x')]]):
@@ -1323,11 +1406,11 @@ def gen(tier, rng):
                 pats.append([f for f in fnames if rng.random() < p])
         for pat in pats:
             for proles in ([r for r in ROLES if r in froles], ['author'], ['editor'], []):
-                if rng.random() < (0.5 if quick else 1.0):
+                if rng.random() < 0.5:
                     e = rand_entry(rng, rng.choice(KEYS), typ, pat, proles)
                     yield ('type_patterns', 1, [rand_cfg(rng, strict=1), [e], None])
     # ---- random databases
-    for i in range(1200 if quick else 8000):
+    for i in range(1200 if quick else 6000):
         db = rand_db(rng, rng.choice([1, 2, 3, 3, 4, 5, 6]))
         if rng.random() < 0.6:
             # make required fields mostly present so that whole bibliographies are produced
@@ -1335,7 +1418,7 @@ def gen(tier, rng):
                    e[3] + [[r, [rand_person(rng)]] for r in ROLES if r not in [x[0].lower() for x in e[3]]]] for e in db]
         yield ('random_db', 1, [rand_cfg(rng), db, rand_cites(rng, db)])
     # ---- malformed
-    for i in range(300 if quick else 4000):
+    for i in range(300 if quick else 2500):
         db = rand_db(rng, rng.choice([1, 2, 3]))
         e = rng.choice(db)
         r = rng.randrange(7)
@@ -1347,6 +1430,53 @@ def gen(tier, rng):
         elif r == 5: e[3] = [['author', [P(last=['a{b'])]]]
         else: e[2] = [[k, ''] for k, v in e[2]]
         yield ('malformed', 1, [rand_cfg(rng), db, rand_cites(rng, db)])
+
+# core computes model_arg sequentially in the main process (twice in the thorough tier): the generated
+# cases are recorded, their model arguments are computed once in a fork pool and kept marshalled
+_GEN_CASES = []
+_MARG = None
+_MARG_POS = 0
+
+def gen(tier, rng):
+    global _MARG, _MARG_POS
+    del _GEN_CASES[:]
+    _MARG = None; _MARG_POS = 0
+    for stream, fn, arg in _gen(tier, rng):
+        arg = norm(arg)
+        _GEN_CASES.append((fn, arg))
+        yield (stream, fn, arg)
+
+def _marg_chunk(idx):
+    import marshal, zlib
+    return [zlib.compress(marshal.dumps(norm(_model_arg(*_GEN_CASES[i]))), 1) for i in idx]
+
+def _precompute_margs():
+    import multiprocessing as mp
+    n = len(_GEN_CASES)
+    procs = max(1, min(core.NPROC, n // 500))
+    if procs <= 1:
+        return _marg_chunk(range(n))
+    chunks = [list(range(k, n, procs)) for k in range(procs)]
+    with mp.get_context('fork').Pool(procs) as pool:
+        outs = pool.map(_marg_chunk, chunks)
+    res = [None] * n
+    for k, o in enumerate(outs):
+        for i, r in zip(range(k, n, procs), o):
+            res[i] = r
+    return res
+
+def model_arg(fn, arg):
+    global _MARG, _MARG_POS
+    if _GEN_CASES:
+        if _MARG is None:
+            _MARG = _precompute_margs()
+        i = _MARG_POS % len(_GEN_CASES)
+        gfn, garg = _GEN_CASES[i]
+        if gfn == fn and garg == arg:
+            import marshal, zlib
+            _MARG_POS += 1
+            return marshal.loads(zlib.decompress(_MARG[i]))
+    return _model_arg(fn, arg)
 
 def describe(fn, arg):
     def ent(e):
